@@ -64,18 +64,54 @@ def directed_resubscribe_burst(r):
     return dict(cfg=tuple(cfg), insts=[], draws=[], events=events, end=t + 4 * T, rev=r.random() < 0.3, fuel=20000)
 
 
+def directed_twin_servers(r):
+    """Eventgroups requested from TWO servers whose sockaddrs agree in host and port and differ in the IPv6 scope id (301,
+    302) and from an ordinary third one - before and after the start, across refresh rounds, a stop-subscribe, stop and restart:
+    every server holds exactly what was requested from IT."""
+    from .. import conv
+    T = scen.T
+    cfg = list(scen.timings(r))
+    cfg[11] = r.choice([0, 0, 5 * scen.MS])
+    refresh = r.choice([None, T, 2 * T])
+    cfg[10] = refresh
+    cfg[9] = 0xFFFFFF if refresh is None else r.choice([3, 0xFFFFFF])
+    gs = r.sample(scen.EGS, 3)
+    pairs = [(gs[0], 301), (gs[1], 302), (gs[2], r.choice([1, 301, 302]))]
+    if r.random() < 0.5:
+        pairs.append((gs[0], 302))
+    events = []
+    t_start = r.choice([0, 1, T // 4])
+    for g, srv in pairs:
+        events.append((r.choice([0, 0, t_start, t_start + T // 2, t_start + T + 1]), (1, [9, conv.s_eg(g), srv])))
+    events.append((t_start, (1, [11])))
+    t = t_start + r.choice([2, 3]) * T
+    if r.random() < 0.5:
+        g, srv = r.choice(pairs)
+        events.append((t, (1, [10, conv.s_eg(g), srv, True])))
+        t += T
+    if r.random() < 0.6:
+        events.append((t, (1, [12, True])))
+        if r.random() < 0.5:
+            events.append((t + T, (1, [11])))
+            t += 2 * T
+    events.sort(key=lambda e: e[0])
+    return dict(cfg=tuple(cfg), insts=[], draws=[], events=events, end=t + 3 * T, rev=r.random() < 0.3, fuel=20000)
+
+
 def run(ctx):
     r = ctx.rng
     quick = ctx.tier == "quick"
     ctx.rule = ("sequences of subscribe / stop-subscribe (no duplicate subscribes) / start / stop of the subscriber for 3 eventgroups (IPv4/IPv6 local endpoints, "
                 "UDP/TCP) x 2 servers at times on refresh instants, +-1 tick and anywhere, refresh intervals {None,1,2,3 s}; complete traces compared with the "
                 "model; implementation trace judged by check_C14; every fifth scenario: eventgroups at THREE servers and an application stop-subscribe made one, two "
-                "or three loop iterations into the start / refresh instant (ApiSoon); bursts subscribe X / stop-subscribe A / subscribe A in ONE instant; non-trivial = distinct scenario producing at least one transmission")
+                "or three loop iterations into the start / refresh instant (ApiSoon); bursts subscribe X / stop-subscribe A / subscribe A in ONE instant; two servers that agree in host and port (IPv6 scope ids); non-trivial = distinct scenario producing at least one transmission")
     ctx.assumptions = ["no duplicate subscribe of the same eventgroup to the same server (the property's proviso)"]
     n = 300 if quick else 10000
     scs = stackprop.corpus_scenarios("C14") + [directed_mid_round(r) if k % 5 == 3 else scen.subscriber_scenario(r) for k in range(n)]
     r2 = random.Random(ctx.seed * 7919 + 14)      # a stream of its own: the scenarios above stay what they were
     scs += [directed_resubscribe_burst(r2) for _ in range(40 if quick else 1500)]
+    r3 = random.Random(ctx.seed * 7919 + 114)
+    scs += [directed_twin_servers(r3) for _ in range(30 if quick else 1000)]
     stackprop.run_scenarios(ctx, scs, 3014, CODES, what="subscriber")
 
 
